@@ -108,11 +108,15 @@ Supported(p, t) ==
 \* positions the AST walk must still reach: an argument of a builtin, of an ordinary function,
 \* an element of a composite literal, a method body, a goroutine, a conversion's operand
 Forms == {"body", "pkgvar", "closure", "nested", "testfile", "curried",
-          "builtinarg", "funcarg", "composite", "method", "goroutine", "deferred"}
+          "builtinarg", "funcarg", "composite", "method", "goroutine", "deferred",
+          \* one form per branch of find.go's Visit for the CALL that encloses the derive call: callee is a
+          \* predeclared type (conversion, no source position), a declared type, a qualified identifier, a function literal
+          "convarg", "namedconv", "selectorarg", "litcall"}
 HasResult(p) == p # "deepcopy"
 FormOK(p, f) == CASE f = "curried" -> p \in {"equal", "compare"}
                   [] f = "nested" -> p \in {"equal", "compare", "hash", "sort", "keys", "contains", "unique", "min", "max"}
-                  [] f \in {"builtinarg", "funcarg", "composite"} -> HasResult(p)
+                  [] f \in {"builtinarg", "funcarg", "composite", "namedconv", "selectorarg", "litcall"} -> HasResult(p)
+                  [] f = "convarg" -> p \in {"equal", "compare", "hash", "gostring", "contains"}   \* result is bool/int/uint64/string
                   [] OTHER -> TRUE
 
 VARIABLES case, done
